@@ -35,14 +35,16 @@ def flip(addr, bit):
 
 
 def text_of(fam, addr, prefix, port):
+    # (a prefix length is a decimal number, however it is spelled: one in four is written with leading zeros)
+    ptxt = ("%03d" % prefix) if prefix != 255 and (addr[-1] + addr[0] + prefix) % 4 == 0 else str(prefix)
     if fam == 4:
         t = str(ipaddress.IPv4Address(bytes(addr)))
         if prefix != 255:
-            return f"{t}/{prefix}"
+            return f"{t}/{ptxt}"
         return t if port is None else f"{t}:{port}"
     t = "[" + str(ipaddress.IPv6Address(bytes(addr))) + "]"
     if prefix != 255:
-        return f"{t}/{prefix}"
+        return f"{t}/{ptxt}"
     return t if port is None else f"{t}:{port}"
 
 
